@@ -164,6 +164,54 @@ theorem placeholder_in_type_test_counterexample :
     ∃ a, NeedsHint a ∧ phase0 .placeholderInType a true false = .synthesisedFinal :=
   ⟨.matchE [.simple, .call], .matchArm (c := .call) (by simp) .call, by decide⟩
 
+/-! ## the produced-placeholders flag across nested synthesis runs -/
+
+mutual
+theorem flagAfter_saveRestore : ∀ (evs : List SynthEv) (flag : Bool),
+    flagAfter .saveRestore flag evs = (flag || directPlaceholder evs)
+  | [], flag => by simp [flagAfter, directPlaceholder]
+  | .placeholder :: rest, flag => by
+    simp [flagAfter, directPlaceholder, flagAfter_saveRestore rest true]
+  | .nested body :: rest, flag => by
+    simp [flagAfter, directPlaceholder, runSynth, flagAfter_saveRestore rest flag]
+end
+
+/-- **`synth_flag_exact`** (needs the restore): with save / restore, a synthesis run reports
+exactly "the flag it was entered with, or a placeholder produced directly in it", and leaves the
+caller's flag untouched — whatever nested runs happen inside it, however deep, in whatever order.
+In particular a nested run can never *clear* what the enclosing run has already produced. -/
+theorem synth_flag_exact (flag : Bool) (body : List SynthEv) :
+    runSynth .saveRestore flag body = (flag || directPlaceholder body, flag) := by
+  simp [runSynth, flagAfter_saveRestore]
+
+theorem directPlaceholder_perm {a b : List SynthEv} (h : a.Perm b) :
+    directPlaceholder a = directPlaceholder b := by
+  induction h with
+  | nil => rfl
+  | cons x _ ih => cases x <;> simp [directPlaceholder, ih]
+  | swap x y l => cases x <;> cases y <;> simp [directPlaceholder]
+  | trans _ _ ih1 ih2 => exact ih1.trans ih2
+
+/-- **order independence**: reordering what happens inside a run (e.g. swapping the branches of an
+if/else argument) does not change what the run reports. -/
+theorem synth_flag_order_independent (flag : Bool) {a b : List SynthEv} (h : a.Perm b) :
+    runSynth .saveRestore flag a = runSynth .saveRestore flag b := by
+  simp [synth_flag_exact, directPlaceholder_perm h]
+
+/-- the same about the code as it stands (discipline read from typing_context.rs) -/
+theorem synth_flag_exact_code (flag : Bool) (body : List SynthEv) :
+    runSynth Generated.flagDiscipline flag body = (flag || directPlaceholder body, flag) :=
+  synth_flag_exact flag body
+
+/-- fault class 4 (seed C13d): resetting the flag on entry without restoring it lets the *last*
+nested run overwrite the enclosing run's flag: a run that produced a placeholder and then contains
+a nested run without placeholders reports "none produced" — and the report depends on the order. -/
+theorem reset_no_restore_counterexample :
+    (runSynth .resetNoRestore false [.placeholder, .nested []]).1 = false ∧
+    (runSynth .resetNoRestore false [.nested [], .placeholder]).1 = true ∧
+    directPlaceholder [.placeholder, .nested []] = true := by
+  simp [runSynth, flagAfter, directPlaceholder]
+
 /-! ## hint propagation through if / else-if / else -/
 
 /-- **`wrap_keeps_hints`**: with the else part checked against the type of the then-block, wrapping
